@@ -7,7 +7,7 @@ from fractions import Fraction
 from sa.report import Cx
 from sa.walker import WalkOptions
 from sa.terms import (Sym, Attr, Sub, App, Num, Const, Fresh, TupleT, CompInfo, AIn, AEq, AIsInst, ACmp, f_and, f_not, implies, mk_cmp,
-                      subst_formula, FTrue, FFalse, FConst)
+                      subst_formula, FTrue, FFalse, FConst, atoms_of, Term)
 from .common import ENV, check_atomic, order_class, strip_versions, super_init_bindings
 from .c09 import find_comp, producer_facts
 
@@ -199,6 +199,32 @@ def run(cx: Cx):
     undecided = [(d, c) for d, c, p, ok in arms if not isinstance(c, FConst)]
     cx.floor('LookupGenerator dispatch arms', len(arms), 2)
     if undecided:
+        from sa.terms import term_symbols as _ts
+
+        def _reads_coordinates(c):
+            for a in atoms_of(c):
+                for attr in ('base', 'a', 'b', 'x', 't', 'container'):
+                    tt = getattr(a, attr, None)
+                    if tt is None:
+                        continue
+                    stack = [tt]
+                    while stack:
+                        u = stack.pop()
+                        if isinstance(u, Sub) and strip_versions(u.base) == pos:
+                            return True
+                        for ch in ('base', 'index'):
+                            if hasattr(u, ch) and isinstance(getattr(u, ch), Term):
+                                stack.append(getattr(u, ch))
+                        if isinstance(u, App):
+                            stack.extend(u.args)
+            return False
+        valued = [(d, c) for d, c in undecided if _reads_coordinates(c)]
+        if valued:
+            cx.violation('R-AGREE', lg.qualname, 'dispatch-on-the-shape-of-the-position-only',
+                         f"LookupGenerator.__call__ chooses how deep to index the table by the VALUE of a coordinate ([{valued[0][1]!r}]): "
+                         f"cells of one table get entries from different nesting levels (a whole row for some cells, an element for "
+                         f"others)", where=cx.where(lg))
+            return
         cx.inconclusive('R-AGREE', 'LookupGenerator dispatch', f"arm conditions do not fold for a {arity}-tuple position: "
                         f"{[repr(c) for d, c in undecided]}", where=cx.where(lg), function=lg.qualname)
         return
@@ -224,6 +250,9 @@ def run(cx: Cx):
                      f"indexing the table {d} deep is reachable through a world; the worlds {[w for w, dim in mism]} have dimensionality "
                      f"{[dim for w, dim in mism]}: a table of the world's own dimensionality cannot be used (TypeError / wrong entry)",
                      where=cx.where(lg, reach[0][1].last.line if reach else None), arity=arity, reachable_depths=depths, worlds=worlds)
+    from .common import include_premises
+    include_premises(cx, ['C09'], 'reading a cell component through get_cell uses the coordinate -> id mapping',
+                     only=lambda o: o.function.endswith('.get_cell') or 'get_cell' in o.key)
 
 
 def _arm(arms, pcond, v, p, pos, arity, table):
